@@ -157,7 +157,7 @@ func (m *mlinkModel) analyseCursorFn(fn *ssa.Function, report func(in ssa.Instru
 func runC10(c *Ctx) {
 	P := c.P
 	c.Explanation = "Decides the structural clauses of the property: (R-CURSOR-VALID) in every function of package mlink, each access to the links through a cursor's current position is dominated — in a typestate dataflow over go/ssa — by a validation of that same position (checkValid, or a cursor method whose computed summary validates on all paths), so a stale cursor panics instead of hanging or altering the list; the validator tests exactly the marker the detach sites write. (R-DETACH-INVALIDATE) every link store that drops entries is preceded by invalidation of what it drops. (R-TAIL-RESET, R-SIZE-PAIR) mlink.Queue re-seats its cached tail cursor when the entry it hangs on can be detached, and size changes are paired one-to-one with insert/remove/clear. (R-RING-MIRROR) in package ring every next-link write has its mirror prev-link write in the same block. (R-YIELD) Each iterators are stoppable. (R-NOOP-GUARD, package ring) a no-op exit taken on x.f == v is justified only by a store of v into x.f in the same function; (R-LEN-EFFECT, package stack) every path of Push/Add/Pop/Clear that rewrites the list leaves its length at L0+1 / L0−1 / 0. (R-WRAP-CHECKED) every node Ring.At returns that was reached through a link has been compared with the receiver. Does NOT decide that the resulting sequences/cycles are the documented ones, Stack behaviour beyond Each, or termination of ring walks."
-	c.rule("R-CURSOR-VALID", 5, "every access to entry fields through cur.pred is preceded on all paths by a validation of the current cur.pred")
+	c.rule("R-CURSOR-VALID", 3, "every access to entry fields through cur.pred is preceded on all paths by a validation of the current cur.pred")
 	c.rule("R-MARKER-AGREE", 1, "checkValid panics exactly when e.link == e, the marker written by detach sites; and returns e")
 	c.rule("R-DETACH-INVALIDATE", 4, "every store P.link = V is an insertion, a marker, or a detach preceded by invalidation of the dropped entries")
 	c.rule("R-TAIL-RESET", 2, "after Cursor.Remove/List.Clear inside mlink.Queue every path re-seats back (unconditionally or when the list is empty); Add re-seats a zero back cursor")
@@ -167,6 +167,8 @@ func runC10(c *Ctx) {
 	ruleNoopGuard(c, "ring")
 	ruleWrapChecked(c)
 	ruleSizeGuard(c, "stack", "mlink", "ring")
+	ruleEmptyAgreesLen(c, "stack", "Stack")
+	ruleEmptyAgreesLen(c, "mlink", "Queue")
 	c.rule("R-LEN-EFFECT", 3, "every path through a Stack method that rewrites the list leaves its length at L0+1 (Push, Add), L0−1 (Pop), 0 (Clear) or unchanged")
 	if lf := firstSliceField(P, "stack", "Stack"); lf != nil {
 		ruleLenEffect(c, "R-LEN-EFFECT", "stack", "Stack", lf, map[string]lform{
@@ -178,11 +180,75 @@ func runC10(c *Ctx) {
 
 	m := &mlinkModel{P: P, eff: newEff(P), validates: map[*ssa.Function]bool{}, storesPred: map[*ssa.Function]bool{}}
 	m.cursorT = P.Named("mlink", "Cursor")
-	m.entryT = P.Named("mlink", "entry")
-	m.predF = P.Field("mlink", "Cursor", "pred")
-	m.linkF = P.Field("mlink", "entry", "link")
-	m.checkValid = P.Func("mlink", "entry", "checkValid")
-	m.inval = P.Func("mlink", "entry", "invalidate")
+	// private identifiers by role, not by name: the cursor's one pointer field is its position; what it points
+	// to is the entry type; the entry's link is its field of type *entry; the validator is the entry method that
+	// compares the link with the entry itself and hands the entry back; the invalidator is the entry method
+	// with a loop that stores an entry into its own link
+	if m.cursorT != nil {
+		if st, ok := m.cursorT.Underlying().(*types.Struct); ok {
+			for i := 0; i < st.NumFields(); i++ {
+				if pt, ok := st.Field(i).Type().(*types.Pointer); ok {
+					if nt, ok := types.Unalias(pt.Elem()).(*types.Named); ok && nt.Obj().Pkg() == m.cursorT.Obj().Pkg() {
+						if m.predF != nil {
+							m.predF, m.entryT = nil, nil // more than one candidate: undecided below
+							break
+						}
+						m.predF, m.entryT = st.Field(i), nt.Origin()
+					}
+				}
+			}
+		}
+	}
+	if m.entryT != nil {
+		if st, ok := m.entryT.Underlying().(*types.Struct); ok {
+			for i := 0; i < st.NumFields(); i++ {
+				if pt, ok := st.Field(i).Type().(*types.Pointer); ok {
+					if nt, ok := types.Unalias(pt.Elem()).(*types.Named); ok && nt.Origin() == m.entryT {
+						m.linkF = st.Field(i)
+					}
+				}
+			}
+		}
+		for i := 0; i < m.entryT.NumMethods(); i++ {
+			f := P.SSA.FuncValue(m.entryT.Method(i))
+			if f == nil || f.Blocks == nil || len(f.Params) != 1 || m.linkF == nil {
+				continue
+			}
+			selfCmp, selfStore, hasLoop := false, false, false
+			for _, b := range f.Blocks {
+				for _, p := range b.Preds {
+					if b.Dominates(p) {
+						hasLoop = true
+					}
+				}
+				for _, in := range b.Instrs {
+					switch x := in.(type) {
+					case *ssa.BinOp:
+						if x.Op == token.EQL || x.Op == token.NEQ {
+							if _, fl := loadedField(x.X); fl != nil && sameField(fl, m.linkF) {
+								selfCmp = true
+							}
+							if _, fl := loadedField(x.Y); fl != nil && sameField(fl, m.linkF) {
+								selfCmp = true
+							}
+						}
+					case *ssa.Store:
+						if fa, ok := x.Addr.(*ssa.FieldAddr); ok {
+							if _, fl := fieldVarOf(fa); sameField(fl, m.linkF) && x.Val == fa.X {
+								selfStore = true
+							}
+						}
+					}
+				}
+			}
+			switch {
+			case selfStore && hasLoop && f.Signature.Results().Len() == 0:
+				m.inval = f
+			case selfCmp && !selfStore && f.Signature.Results().Len() == 1:
+				m.checkValid = f
+			}
+		}
+	}
 	if m.cursorT == nil || m.entryT == nil || m.predF == nil || m.linkF == nil || m.checkValid == nil || m.inval == nil {
 		c.undecided("ANCHOR", "mlink.Cursor/entry/checkValid/invalidate", 0, "anchor not found")
 		return
@@ -297,7 +363,7 @@ func runC10(c *Ctx) {
 				c.ok("R-DETACH-INVALIDATE", key, st.Pos(), "marker store (self-link)")
 				return
 			}
-			oldLinkSym := pSym + ".link"
+			oldLinkSym := pSym + "." + m.linkF.Name()
 			// insertion: fresh entry whose own link was initialised with the old P.link, or old P.link is nil (AtEnd)
 			if al, ok := V.(*ssa.Alloc); ok && al.Heap && isNamedOrigin(al.Type(), m.entryT) {
 				var init ssa.Value
@@ -358,6 +424,33 @@ func runC10(c *Ctx) {
 					}
 				}
 			})
+			if !pre {
+				// … or followed at once by it: the dropped entry was read before the store (out := p.link), the
+				// link is re-pointed, and the next link store in the block — no call in between — marks `out`
+				after := false
+				for _, in2 := range st.Block().Instrs {
+					if in2 == ssa.Instruction(st) {
+						after = true
+						continue
+					}
+					if !after {
+						continue
+					}
+					if _, isCall := in2.(*ssa.Call); isCall {
+						break
+					}
+					if y, ok := in2.(*ssa.Store); ok {
+						if fa2, ok := y.Addr.(*ssa.FieldAddr); ok {
+							if _, f2 := fieldVarOf(fa2); sameField(f2, m.linkF) {
+								if ld, ok := fa2.X.(*ssa.UnOp); ok && y.Val == fa2.X && sym(ld) == oldLinkSym && dominatesInstr(ld, st) {
+									pre = true
+								}
+								break
+							}
+						}
+					}
+				}
+			}
 			c.judge(pre, "R-DETACH-INVALIDATE", key, st.Pos(), "detach preceded by invalidation of the dropped entry/entries", "entries are unlinked without being marked invalid: cursors left on them keep working on a detached chain")
 		})
 	}
@@ -384,6 +477,7 @@ func runC10(c *Ctx) {
 				}
 			}
 		}
+		ruleInvalidatorExits(c, m.inval, m.linkF)
 		c.judge(loops, "R-DETACH-INVALIDATE", "mlink.(*entry).invalidate:walks the chain", m.inval.Pos(), "a loop advancing along the link marks every entry", "the invalidator does not loop along the chain it is given: only its first entry is marked, so cursors on later detached entries keep working on a dead chain instead of panicking")
 	}
 	// ---- R-TAIL-RESET and R-SIZE-PAIR (mlink.Queue)
@@ -395,6 +489,37 @@ func runC10(c *Ctx) {
 	}
 	cRemove, cTrunc, cAdd := P.Func("mlink", "Cursor", "Remove"), P.Func("mlink", "Cursor", "Truncate"), P.Func("mlink", "Cursor", "Add")
 	lClear, lIsEmpty, lCfirst := P.Func("mlink", "List", "Clear"), P.Func("mlink", "List", "IsEmpty"), P.Func("mlink", "List", "cfirst")
+	// frontCell: a local cursor variable that only ever receives the result of cfirst and is handed only to
+	// cursor methods that do not move the cursor
+	frontCell := func(v ssa.Value) bool {
+		al, ok := v.(*ssa.Alloc)
+		if !ok {
+			return false
+		}
+		n := 0
+		for _, r := range referrersOf(al) {
+			switch x := r.(type) {
+			case *ssa.Store:
+				if x.Addr != ssa.Value(al) {
+					return false
+				}
+				call, ok := x.Val.(*ssa.Call)
+				if !ok || staticCallee(&call.Call) != lCfirst {
+					return false
+				}
+				n++
+			case *ssa.Call:
+				cal := staticCallee(&x.Call)
+				if cal == nil || len(x.Call.Args) == 0 || x.Call.Args[0] != ssa.Value(al) || m.storesPred[origin(cal)] || m.storesPred[cal] {
+					return false
+				}
+			case *ssa.UnOp, *ssa.DebugRef:
+			default:
+				return false
+			}
+		}
+		return n > 0
+	}
 	isBackReset := func(in ssa.Instruction) bool {
 		st, ok := in.(*ssa.Store)
 		if !ok {
@@ -408,7 +533,14 @@ func runC10(c *Ctx) {
 			return false
 		}
 		call, ok := st.Val.(*ssa.Call)
-		return ok && staticCallee(&call.Call) == lCfirst
+		if ok && staticCallee(&call.Call) == lCfirst {
+			return true
+		}
+		// a local that holds the front cursor (front := list.cfirst(); …; q.back = front)
+		if ld, ok := st.Val.(*ssa.UnOp); ok && ld.Op == token.MUL {
+			return frontCell(ld.X)
+		}
+		return false
 	}
 	// … or a call of a Queue helper that re-seats the cursor on all of its paths (q.rewind())
 	isBackResetDirect := isBackReset
@@ -445,6 +577,17 @@ func runC10(c *Ctx) {
 					f := expandFact(Fact{iff.Cond, i == 0})[0]
 					if ec, ok := f.Cond.(*ssa.Call); ok && staticCallee(&ec.Call) == lIsEmpty && !f.Truth {
 						return true
+					}
+					// … or a cursor at the front of the list (the result of cfirst) is not at the end
+					if ec, ok := f.Cond.(*ssa.Call); ok && !f.Truth && len(ec.Call.Args) == 1 {
+						if cal := staticCallee(&ec.Call); cal != nil && cal.Name() == "AtEnd" && origin(cal).Pkg == fn.Pkg {
+							if fc, ok := ec.Call.Args[0].(*ssa.Call); ok && staticCallee(&fc.Call) == lCfirst {
+								return true
+							}
+							if frontCell(ec.Call.Args[0]) {
+								return true
+							}
+						}
 					}
 					return false
 				})
